@@ -305,7 +305,20 @@ def run(case):
             what = "np.concatenate([other, rl]) with rows %s (%s)" % (short(case["rows2"], 100), dt2)
         else:
             pass
-        if case.get("zero_parts"):
+        if case.get("zero_parts") == "other-type":
+            # a piece without any row, of ANOTHER element type than the pieces that have rows: numpy's result type counts every operand
+            tags.append("concat:zero-row-operand-of-other-type")
+            forms = [rlx, other[[]]] if (n + len(rows2)) % 2 else [other[:0], rlx, other[np.zeros(len(rows2), dtype=bool)]]
+            o = ("2d", [r.astype(rdt).tolist() for r in rows])
+
+            def cat_():
+                r_ = np.concatenate(forms)
+                got_ = np.asarray(r_[0].to_array()).dtype
+                k_, v_ = to_rows(r_)
+                return (k_ if got_ == rdt else "%s with element type %s instead of %s" % (k_, got_, rdt)), v_
+            a = attempt(cat_)
+            what = "np.concatenate of the array with zero-row pieces of element type %s" % dt2
+        elif case.get("zero_parts"):
             # operands that are selections without any row (an empty slice, an empty list, an all-False mask) next to / instead of real ones
             tags.append("concat:zero-row-operands")
             z = [rlx[n:], rlx[[]], rlx[np.zeros(n, dtype=bool)]]
@@ -528,6 +541,11 @@ def gen_case(rng, tier, op=None, variant=None, dtype=None):
                 c["rows2"] = gen_rows(rng, dtype, False, tier)
                 if rng.random() < 0.25:
                     c["zero_parts"] = rng.choice(["only", "single", "first", "last"])
+            if rng.random() < 0.12:
+                c["dtype2"] = rng.choice([d_ for d_ in ("float64", "int64", "float32", "uint64", "int16") if d_ != dtype])
+                c["rows2"] = [gen.values(rng, c["dtype2"], rng.randint(1, 4), "small").tolist() for _ in range(rng.randint(1, 3))]
+                c["zero_parts"] = "other-type"
+                c.pop("swap", None)
             return c
         if op == "npfunc":
             c["name"], c["axis"] = rng.choice([("sum", -1), ("sum", 0), ("mean", -1), ("mean", 0), ("max", -1)])
@@ -563,6 +581,9 @@ def directed():
     rng = random.Random(1717)
     yield from stepped_cases()
     yield from onerow_and_bigsum_cases()
+    for d1_, d2_ in (("int8", "float64"), ("int32", "int64"), ("uint8", "int16"), ("float32", "float64"), ("int64", "uint64"), ("bool", "int8")):
+        yield {"op": "concat", "variant": "ragged", "dtype": d1_, "rows": [[1, 1, 0], [1, 0]] if d1_ == "bool" else [[100, 100, 3], [5, 5]], "dtype2": d2_, "rows2": [[1, 1], [2]], "zero_parts": "other-type"}
+        yield {"op": "concat", "variant": "ragged", "dtype": d1_, "rows": [[1]] if d1_ == "bool" else [[7, 7, 7, 2]], "dtype2": d2_, "rows2": [[1], [2], [2]], "zero_parts": "other-type"}
     # 64-bit integers whose terms and partial row sums lie beyond 2**53 and cancel: row sums are exact in 64-bit integer arithmetic
     big_ = [[2 ** 60] * 3 + [1] * 4 + [-2 ** 60] * 3, [2 ** 62, 2 ** 62 - 1, -2 ** 62, 5, 5, -2 ** 62, 0, 0, 9, 9], [7] * 10, [2 ** 53 + 1] * 2 + [3] * 6 + [-2 ** 53] * 2]
     for variant_ in ("2d", "ragged", "ragged_from_matrix"):
